@@ -112,7 +112,7 @@ def rule_pr(ctx):
                 and A.is_name(n.value.func.value, param):
             rebind = n
             break
-    ok = rebind is not None and not flow.guards_of(rebind, fn)
+    ok = rebind is not None and not flow.enclosing_guards(rebind, fn)
     rep.ob('PR', K.key(cls, '__init__', 'parameter-rebound-to-its-copy'), ok, rebind or fn,
            '' if ok else 'the constructor must first rebind its parameter to `%s.copy()` unconditionally' % param)
     stores = []
